@@ -326,7 +326,33 @@ class PolyEnv:
             return f"{self._arg(e.value)}.{e.attr}"
         if isinstance(e, ast.Starred):
             return "*" + self._arg(e.value)
+        if isinstance(e, (ast.ListComp, ast.SetComp, ast.GeneratorExp, ast.DictComp)):
+            return self._comprehension(e)
         return " ".join(ast.unparse(e).split())
+
+    def _comprehension(self, e: ast.AST) -> str:
+        """Bound variables are named by position, the element and the iterables are in normal form."""
+        import copy
+        e = copy.deepcopy(e)
+        names: dict[str, str] = {}
+        for g in e.generators:
+            for n in ast.walk(g.target):
+                if isinstance(n, ast.Name) and n.id not in names:
+                    names[n.id] = f"_c{len(names)}"
+
+        class R(ast.NodeTransformer):
+            def visit_Name(self, node):  # noqa: N802
+                if node.id in names:
+                    return ast.copy_location(ast.Name(id=names[node.id], ctx=node.ctx), node)
+                return node
+
+        e = R().visit(e)
+        gens = " ".join(f"for {' '.join(ast.unparse(g.target).split())} in {self._arg(g.iter)}" + "".join(f" if {self._arg(c)}" for c in g.ifs)
+                        for g in e.generators)
+        if isinstance(e, ast.DictComp):
+            return "{" + f"{self._arg(e.key)}: {self._arg(e.value)} {gens}" + "}"
+        o, c = {"ListComp": "[]", "SetComp": "{}", "GeneratorExp": "()"}[type(e).__name__]
+        return f"{o}{self._arg(e.elt)} {gens}{c}"
 
     def _arg(self, e: ast.AST) -> str:
         try:
